@@ -106,8 +106,9 @@ CLAIMS = {
              "back-pointer cells as arguments and returns the same result for every such content (C10_matrix_history_independent: it reads a cell of either only after writing it in the same "
              "call); C10_matrix_indices_in_range: every side condition of the matrix path's index arithmetic (Model/OptImpl.lean: optimalSafe - one conjunct per u16/usize subtraction and per slice "
              "or index expression of setup, score_row, populate_matrix, the best-cell search and reconstruct_optimal_path, plus termination of the traceback loop) holds for every window, "
-             "needle, configuration and prior scratch content. Totality, and history independence of the real code: every case runs in a build with overflow checks and debug assertions on a fresh, a used and a poisoned matcher; "
-             "any panic or difference is a violation (absence of panics and overflow: correspondence, not theorem)."),
+             "needle, configuration and prior scratch content; C10_matrix_scores_fit_u16: with prefix preference off and the presets' bonuses every cell of row r of the matrix has score at most "
+             "26 (r + 1) + 10, so for the needle lengths the slab admits (at most 2048) no u16 addition of next_m_cell / p_score overflows. Totality, and history independence of the real code: every case runs in a build with overflow checks and debug assertions on a fresh, a used and a poisoned matcher; "
+             "any panic or difference is a violation (absence of panics and overflow outside the matrix path: correspondence, not theorem)."),
     "C16": dict(
         technique="Lean 4 theorems over all code points (kernel-decided complete tables lifted by range lemmas) + exhaustive model/implementation correspondence",
         text="Every clause of C16 is a Lean theorem over every natural number (hence every scalar value) about a model whose tables, table lengths and block dispatch are regenerated "
